@@ -97,6 +97,49 @@ class Obj:
     def __repr__(self):
         return "<%s object>" % self.cls.qualname
 
+    # attrs classes (eq=True by default) compare -- and, when frozen, hash -- by field values;
+    # this matters for instances used as dict keys / set members / `in` tests.  Only decided
+    # for concrete field values; otherwise identity (symbolic fields as keys are unsupported).
+    def _attrs_key(self):
+        cls = self.cls
+        if not getattr(cls, "is_attrs", False) or (getattr(cls, "attrs_kwargs", None) or {}).get("eq", True) is False:
+            return None
+        if cls.lookup("__eq__")[0] is not None:
+            return None
+        vals = []
+        for k in sorted(self.attrs):
+            v = self.attrs[k]
+            if isinstance(v, Obj):
+                v = v._attrs_key()
+                if v is None:
+                    return None
+            elif isinstance(v, STensor) and v.rank == 0:
+                v = v.at([])  # numpy scalar
+            if not isinstance(v, (int, float, str, bool, tuple, type(None))):
+                return None
+            vals.append((k, v))
+        return (id(cls), tuple(vals))
+
+    def __eq__(self, o):
+        if self is o:
+            return True
+        if not isinstance(o, Obj):
+            return False
+        k = self._attrs_key()
+        return k is not None and k == o._attrs_key()
+
+    def __ne__(self, o):
+        return not self.__eq__(o)
+
+    def __hash__(self):
+        k = self._attrs_key()
+        frozen = getattr(self.cls, "is_attrs", False) and (getattr(self.cls, "attrs_kwargs", None) or {}).get("frozen", False)
+        if k is not None and frozen:
+            return hash(k)
+        if frozen and self.cls.lookup("__eq__")[0] is None:
+            raise Unsupported("frozen attrs object with symbolic fields used as a dict key / set member")
+        return id(self)
+
 
 class BoundMethod:
     def __init__(self, func, self_obj):
@@ -1376,6 +1419,11 @@ class Interp:
                 return self.libconst[d]
             return LibRef(d)
         if isinstance(base, STensor):
+            if name == "size" and base.kind == "numpy":
+                # ndarray.size is an attribute (number of elements), Tensor.size a method
+                from .tensor import prod as _prod
+
+                return _prod(base.shape)
             if name in self.tattrs:
                 return self.tattrs[name](self, base)
             if name in self.tmethods:
